@@ -79,7 +79,7 @@ def oid_string(rng):
     if kind == "first-2-second-big":
         return "2.%d.5" % rng.choice([40, 47, 48, 175, 176, 1000, 2**32 - 1])
     if kind == "lead-zero":
-        return rng.choice(["01.3.6", "1.03.6", "1.3.006", "1.3.6.00"])
+        return rng.choice(["01.3.6", "1.03.6", "1.3.006", "1.3.6.00", "1.3.6." + "0" * rng.choice([5, 9, 10, 11, 20, 30]) + str(rng.choice(EDGE_ARCS)), "0" * rng.choice([9, 12]) + "1.3.6.1"])
     if kind == "huge":
         return "1.3." + ".".join(["1"] * rng.choice([200, 500]))
     if kind == "unicode-digit":
